@@ -1090,6 +1090,9 @@ def nanmedian(x, axis=None):
 
 def argmin(x, axis=None):
     lst = list(_obj(x).flat)
+    for i, v in enumerate(lst):
+        if _isnanv(v):
+            return i  # numpy: the first NaN is the minimum
     best = 0
     for i in _b.range(1, len(lst)):
         if lst[i] < lst[best]:
@@ -1099,6 +1102,9 @@ def argmin(x, axis=None):
 
 def argmax(x, axis=None):
     lst = list(_obj(x).flat)
+    for i, v in enumerate(lst):
+        if _isnanv(v):
+            return i  # numpy: the first NaN is the maximum
     best = 0
     for i in _b.range(1, len(lst)):
         if lst[i] > lst[best]:
